@@ -9,6 +9,8 @@ use crate::u::hworld::*;
 
 pub fn gen(ctx: &mut Ctx) -> Vec<String> {
     let mut out = vec![];
+    // systematic product: session binding x explicit KG argument x first line kind x 1..3 lines
+    out.extend(product_cases(ctx, "c29.prog"));
     for _ in 0..ctx.budget(1000, 10000) {
         let su = setup(ctx);
         let who = *ctx.pick(&["vi", "vi", "vi", "vi", "ed", "ed", "ed", "adm", "anon"]);
